@@ -6,6 +6,8 @@ import (
 	"strings"
 	"sync"
 	"time"
+
+	"github.com/apache/thrift/lib/go/thrift"
 )
 
 // Targeted schedules: interleavings of Close / Open / a peer failure with the
@@ -17,6 +19,9 @@ import (
 var schedules = []string{
 	"close-open-before-old-reader-exits",
 	"failure-between-queued-close-and-open",
+	"two-opens-during-slow-connect",
+	"three-opens-during-slow-connect",
+	"monitor-reopen-and-application-open-during-slow-connect",
 }
 
 // serialSchedules need the library's global yield-point hook and therefore
@@ -190,6 +195,61 @@ func (d *driver) runSchedule() {
 		}
 		d.steps("IRGWRI")
 
+	case "two-opens-during-slow-connect", "three-opens-during-slow-connect":
+		// The underlying connect is slow; two (three) callers open the same
+		// closed transport while it is in progress.  Exactly one may succeed,
+		// the stream is connected once, and the Closed() channel handed out
+		// after the successful Open reports the later failure exactly once.
+		n := 2
+		if strings.HasPrefix(d.spec.Sched, "three") {
+			n = 3
+		}
+		if d.spec.Pol.OpenFails > 0 { // second round: the same after a session has ended
+			d.steps("OXW")
+			if d.status != stOK {
+				return
+			}
+			if d.m.Open {
+				d.steps("C")
+			}
+		}
+		d.concurrentOpens(n, false)
+		d.steps("IRXWRI")
+
+	case "monitor-reopen-and-application-open-during-slow-connect":
+		// After a failure the monitor's reopen attempt is inside the slow
+		// connect when the application calls Open itself.
+		d.steps("O")
+		if d.status != stOK || d.mon == nil {
+			return
+		}
+		d.setGate(&d.st.holdOpen)
+		d.m.Armed = 0 // the monitor's first attempt is the slow connect
+		d.st.armOpenFailures(0)
+		mark := d.st.snap().readErrs
+		d.noteErrFed()
+		d.logf("peer: error (reset-plain)")
+		d.st.FeedError(mkErr(errResetPlain))
+		c, ok := d.awaitCause("error", mark)
+		if !ok {
+			return
+		}
+		if !c.ok || c.v == nil {
+			d.violate("C15:nil-cause-for-non-EOF-failure:error", "a non-EOF stream failure was not published with its cause", nil)
+			return
+		}
+		d.logf("Closed() <- %s", errText(c.v))
+		d.lastEndedBy = "readloop"
+		d.m.Open = false
+		if _, ok := d.expectEvent("uncleanly"); !ok {
+			return
+		}
+		if !d.waitSnap("the monitor's Open inside the slow connect", func(s ftSnap) bool { return s.heldOpen == 1 }) {
+			return
+		}
+		d.concurrentOpens(1, true)
+		d.steps("IRXWRI")
+
 	case "close-open-before-old-reader-exits":
 		// Close() wakes the read loop's blocked Read, but that goroutine runs
 		// late: the user has reopened the transport before the old read loop
@@ -324,4 +384,138 @@ func (d *driver) runSchedule() {
 		}
 		d.steps("IRXWRI")
 	}
+}
+
+// concurrentOpens starts n application Open calls while the underlying
+// connect is held at the gate (withMonitor: the monitor's reopen attempt is
+// already inside it and counts as one more caller), releases the gate once
+// every caller is either inside the underlying Open or parked on the
+// transport's mutex, and checks: exactly one Open succeeds, the others report
+// ALREADY_OPEN, the stream is connected once.  Each successful application
+// caller fetches Closed() right after its Open returned.
+func (d *driver) concurrentOpens(n int, withMonitor bool) {
+	if d.status != stOK {
+		return
+	}
+	if !withMonitor {
+		d.installMonitor()
+		d.setGate(&d.st.holdOpen)
+	}
+	before := d.st.snap()
+	type res struct {
+		err error
+		ch  <-chan error
+	}
+	results := make(chan res, n)
+	tr := d.tr
+	for i := 0; i < n; i++ {
+		go func() {
+			err := tr.Open()
+			var ch <-chan error
+			if err == nil {
+				ch = tr.Closed()
+			}
+			results <- res{err, ch}
+		}()
+	}
+	total := n
+	if withMonitor {
+		total++
+	}
+	if !d.waitPicture("every Open inside the connect or queued on the transport's mutex", func(p *lockPicture) bool {
+		queued := 0
+		for i := range p.lockWaiters {
+			if g := &p.lockWaiters[i]; g.in("Open") && (g.Mine || g.Runner) {
+				queued++
+			}
+		}
+		return d.st.snap().heldOpen-before.heldOpen+queued+boolInt(withMonitor) >= total
+	}) {
+		return
+	}
+	inside := d.st.snap().heldOpen - before.heldOpen + boolInt(withMonitor)
+	d.logf("%d Open calls in flight, %d of them inside the underlying connect", total, inside)
+	d.h.run.Add("concurrent_open_rounds", 1)
+	d.openGate(&d.st.holdOpen)
+	var got []res
+	if !d.await("concurrent Open calls", func(t time.Duration) bool {
+		tm := time.NewTimer(t)
+		defer tm.Stop()
+		for len(got) < n {
+			if t == 0 {
+				select {
+				case r := <-results:
+					got = append(got, r)
+				default:
+					return false
+				}
+				continue
+			}
+			select {
+			case r := <-results:
+				got = append(got, r)
+			case <-tm.C:
+				return false
+			}
+		}
+		return true
+	}, d.deadlockCrit("Open", false)) {
+		return
+	}
+	succ := 0
+	var ch <-chan error
+	for _, r := range got {
+		d.logf("concurrent Open -> %s", errText(r.err))
+		switch {
+		case r.err == nil:
+			succ++
+			ch = r.ch
+		case !isTTE(r.err, thrift.ALREADY_OPEN):
+			d.violate("C15:concurrent-Open:wrong-error", "an Open that lost against a concurrent Open returned "+errText(r.err)+", want ALREADY_OPEN", nil)
+			return
+		}
+	}
+	if withMonitor {
+		e, ok := d.expectEventAny()
+		if !ok {
+			return
+		}
+		switch e.Kind {
+		case "reopenSucceeded":
+			succ++
+		case "reopenFailed":
+			d.m.MonAlive = e.Reopen
+		default:
+			d.violate("C15:monitor-callback-sequence:want-reopen-outcome-got-"+e.Kind, "monitor callback "+e.Kind+" where the outcome of the reopen attempt is due", nil)
+			return
+		}
+	}
+	if succ != 1 {
+		d.violate(fmt.Sprintf("C15:concurrent-Open:%d-succeeded", succ), fmt.Sprintf("%d overlapping Open calls on one closed transport: %d returned nil, exactly one may (the others must report ALREADY_OPEN)", total, succ), nil)
+		return
+	}
+	after := d.st.snap()
+	if c := after.openCalls - before.openCalls + boolInt(withMonitor); c > 1 {
+		d.violate("C15:concurrent-Open:stream-connected-more-than-once", fmt.Sprintf("the underlying transport's Open was called %d times for one session", c), nil)
+		return
+	}
+	d.m.Open = true
+	d.m.Armed = 0
+	d.st.armOpenFailures(0)
+	d.newSession()
+	if d.status != stOK {
+		return
+	}
+	if ch != nil {
+		// the channel the successful caller was handed is the one that must fire
+		d.ch = ch
+	}
+	d.openMark = d.st.snap().openCalls
+}
+
+func boolInt(b bool) int {
+	if b {
+		return 1
+	}
+	return 0
 }
